@@ -164,6 +164,10 @@ def check_site(r, rule, nn, site, mode, spaceA, spaceB, self_policy, equal_lengt
                 break
         if hit is not None:
             used.add(hit)
+        if hit is None and nk in ("LEV", "HAM*") and _keyed_by_unknown_source(nn, site):
+            rep.require(False, f"{q}:{site.line}: candidates are looked up by key, but the key source {site.extra.get('key_source', '')} is not a recognised edit ball / variant generator; "
+                               f"the implied {nk.replace('*', '')} <= {nt} bound cannot be decided")
+            continue
         rep.ob(rule + "-FGA", con, hit is not None, f"a pair is kept only if {nk.replace('*','')} distance <= {nt} (mode {mname})", where,
                expected=f"{nk} <= {nt}", found="; ".join(f"{k} {keep} {tc}{'' if same else ' (other operands)'}" for k, keep, tc, same in found) or "no threshold guard",
                key=f"{K} needs {nk}<={nt}")
@@ -196,6 +200,21 @@ def check_site(r, rule, nn, site, mode, spaceA, spaceB, self_policy, equal_lengt
         rep.ob(rule + "-FGA", con, bool(unflagged) or site.extra.get("self_excluded"), "a position is never reported as its own neighbour", where, expected="i != j filter before the distance stage",
                found="present" if (unflagged or site.extra.get("self_excluded")) else "missing", key=f"{K} self-exclusion present")
     return dinfo
+
+
+def _keyed_by_unknown_source(nn, site):
+    """B is read from a dictionary keyed by the sequence itself, and the key iterates something that is not _generate_neighbors(...).items()."""
+    b = strip(site.b)
+    if head(b) in ("iter", "citer") and head(strip(b[-1])) == "sub":
+        key = strip(strip(b[-1])[2])
+        mi = nn.map_info(site.q, strip(b[-1])[1])
+        if mi and mi["key"] == ("elem",) and head(key) == "item" and head(strip(key[1])) in ("iter", "citer"):
+            it = strip(strip(key[1])[-1])
+            src = strip(strip(it[1])[1]) if is_mcall(it, "items") else it
+            if not is_call(src, MOD + "_generate_neighbors"):
+                site.extra["key_source"] = show(src, 60)
+                return True
+    return False
 
 
 def ops_match(nn, site, dx, sa, sb):
@@ -795,7 +814,7 @@ def _kw_of_call(call):
     return kw
 
 
-def check_kd(r, rule):
+def check_kd(r, rule, modes=None):
     nn = get_nn(r)
     q = MOD + "_kdtree_leven"
     s = nn.summary(q)
@@ -812,41 +831,18 @@ def check_kd(r, rule):
     pts = call[2][0] if call[2] else kw.get("x")
     rad = kw.get("r", call[2][1] if len(call[2]) > 1 else None)
     tree = strip(strip(call[1])[1])
-    # ---- radius  r = c * max_edits + d,  c >= sqrt(2), d >= 0
-    ok, found = False, "no radius argument"
-    if rad is not None:
-        ctx = RFContext()
-        rr = ctx.rf(rad)
-        kterms = [t for t in walk(strip_all(rad)) if nn.R._role_of(q, t) == "K"]
-        found = ctx.show_rf(rr)
-        if kterms and rr.d.is_const():
-            kid = [a for a in rr.n.atoms() if ctx.atoms[a] == ("term", strip_all(kterms[0]))]
-            if kid:
-                kid = kid[0]
-                c = d = 0.0
-                lin = True
-                for mono, coef in rr.n.d.items():
-                    val = float(coef) / float(rr.d.const_value())
-                    kexp = 0
-                    for a, ex in mono:
-                        if a == kid:
-                            kexp = ex
-                        else:
-                            desc = ctx.atoms[a]
-                            if desc[0] == "fn" and desc[1] == "pow" and desc[2][0].is_const() and desc[2][1].is_const():
-                                val *= float(desc[2][0].const_value()) ** (float(desc[2][1].const_value()) * ex)
-                            else:
-                                lin = False
-                    if kexp == 1:
-                        c += val
-                    elif kexp == 0:
-                        d += val
-                    else:
-                        lin = False
-                ok = lin and c >= math.sqrt(2) - 1e-12 and d >= 0
-                found += f"  (= {c:.6g} * max_edits + {d:.6g})" if lin else "  (not affine in max_edits)"
-    r.rep.ob(rule + "-R", q, ok, "ball radius is c*max_edits + d with c >= sqrt(2), d >= 0 (lemma A.2: no smaller multiple is sound)", where,
-             expected="r >= sqrt(2) * max_edits", found=found, key="kd radius")
+    # ---- radius  r = c * max_edits + d,  c >= sqrt(2), d >= 0   (for every mode: the radius may be chosen per mode)
+    seen_r = set()
+    for mode in MODES:
+        if modes is not None and mode[0] not in modes:
+            continue
+        rad_m = fold(rad, nn.R.mode_subst(q, mode)) if rad is not None else None
+        if rad_m in seen_r:
+            continue
+        seen_r.add(rad_m)
+        ok, found = _radius_ok(nn, q, rad_m)
+        r.rep.ob(rule + "-R", q, ok, f"ball radius is c*max_edits + d with c >= sqrt(2), d >= 0 (lemma A.2: no smaller multiple is sound) [{MODE_NAME[mode]}]", where,
+                 expected="r >= sqrt(2) * max_edits", found=found, key=f"kd radius {show(rad_m, 60)}" if not ok else "kd radius")
     # ---- same matrix for tree and query, exact query, p >= 2
     okt = is_call(tree, "scipy.spatial.KDTree") and tree[2] and pts is not None and strip_all(tree[2][0]) == strip_all(pts)
     r.rep.ob(rule + "-CFG", q, okt, "the points queried are the points the tree was built from (row k of the answer belongs to sequence k)", where,
@@ -875,6 +871,48 @@ def check_kd(r, rule):
         comp_arg = strip(mat[2])[2][1] if len(strip(mat[2])[2]) > 1 else dict(strip(mat[2])[3]).get("compression")
         r.rep.ob(rule + "-CFG", q, comp_arg is not None and nn.R._role_of(q, comp_arg) == "COMP", "compression reaches only the encoder", wh(r, q, e.node),
                  expected="_histogram_encode(x, compression)", found=show(comp_arg, 30), key="kd compression")
+
+
+def _radius_ok(nn, q, rad):
+    ok, found = False, "no radius argument"
+    if rad is None:
+        return ok, found
+    if any(head(x) == "ite" for x in walk(rad)):
+        return False, f"radius still depends on a condition after mode folding: {show(rad, 80)}"
+    ctx = RFContext()
+    rr = ctx.rf(rad)
+    kterms = [t for t in walk(strip_all(rad)) if nn.R._role_of(q, t) == "K"]
+    found = ctx.show_rf(rr)
+    if kterms and rr.d.is_const():
+        kid = [a for a in rr.n.atoms() if ctx.atoms[a] == ("term", strip_all(kterms[0]))]
+        if kid:
+            kid = kid[0]
+            c = d = 0.0
+            lin = True
+            for mono, coef in rr.n.d.items():
+                val = float(coef) / float(rr.d.const_value())
+                kexp = 0
+                for a, ex in mono:
+                    if a == kid:
+                        kexp = ex
+                    else:
+                        desc = ctx.atoms[a]
+                        if desc[0] == "fn" and desc[1] == "pow" and desc[2][0].is_const() and desc[2][1].is_const():
+                            val *= float(desc[2][0].const_value()) ** (float(desc[2][1].const_value()) * ex)
+                        else:
+                            lin = False
+                if kexp == 1:
+                    c += val
+                elif kexp == 0:
+                    d += val
+                else:
+                    lin = False
+            # the composition bound is tight: the constant must be >= sqrt(2) as a real number; a float that rounds below it loses boundary pairs
+            ok = lin and c >= math.sqrt(2) and d >= 0
+            found += f"  (= {c!r} * max_edits + {d:.6g})" if lin else "  (not affine in max_edits)"
+        else:
+            found += "  (not affine in max_edits)"
+    return ok, found
 
 
 def check_encoder(r, rule):
@@ -1135,7 +1173,18 @@ def _coo_ok(r, rule, nn, s, call, trip, seqs, seqs2, where):
         ok_shape = not m
     r.rep.ob(rule, q, ok_shape, "shape is (len(seqs), len(seqs2)), square when no second collection is given", where,
              expected="(len(seqs), len(seqs)) if seqs2 is None else (len(seqs), len(seqs2))", found=show(shape, 100) if shape else "no shape argument", key="coo shape")
-    return ok_parts and ok_shape, ""
+    extra = sorted(k for k in dict(c[3]) if k != "shape")
+    ok_kw = True
+    for k in extra:
+        v = strip(dict(c[3])[k])
+        if k == "dtype" and ((head(v) == "glob" and v[1] in ("builtins.float", "numpy.float64", "numpy.double")) or (is_const(v) and v[2] in ("float", "float64"))):
+            continue
+        if k == "copy":
+            continue
+        ok_kw = False
+    r.rep.ob(rule, q, ok_kw and len(c[2]) == 1, "the matrix holds the reported distances as they are (no narrowing dtype or other conversion)", where, expected="coo_matrix((data, (row, col)), shape=shape)",
+             found="extra arguments: " + ", ".join(f"{k}={show(dict(c[3])[k], 20)}" for k in extra) if extra else "none", key="coo extra arguments")
+    return ok_parts and ok_shape and ok_kw, ""
 
 
 VALIDATION_SPEC = [
@@ -1186,7 +1235,13 @@ def check_validation(r, rule):
                     if head(c) == "cmp" and c[1] == "in" and is_call(c[2], "builtins.type") and strip(c[2][2][0]) == lp.elem:
                         types = {strip(x) for x in strip(c[3])[1]} if head(strip(c[3])) in ("set", "tuple", "list") else set()
                         if ("glob", "builtins.str") in types and types <= {("glob", "builtins.str"), ("glob", "numpy.str_")}:
-                            return e
+                            # the check must run for every element of every input: no guard around the loop or the assertion
+                            prior = {strip_all(a["cond"]) for a in asserts}
+                            # guards that only say "the earlier validation steps did not raise" are not conditions on the input
+                            extra = [g for g, pol in tuple(e.ctx.guards) + tuple(lp.ctx.guards)
+                                     if not (pol and (strip_all(g) in prior or head(strip(g)) in ("tryfall", "noexit") or (head(strip(g)) == "un" and head(strip(strip(g)[2])) == "caught")))]
+                            if not extra:
+                                return e
         return None
     for idx, nm in ((0, "seqs"), (7, "seqs2")):
         if idx < len(pnames):
@@ -1372,6 +1427,11 @@ def check_pool(r, rule):
     for e in maps:
         c = strip(e["term"])
         meth = strip(c[1])[2] if is_mcall(c) else "map"
+        if is_mcall(c):
+            recv = strip(strip(c[1])[1])
+            made_here = (head(recv) == "enter" and is_call(recv[1], "multiprocessing.Pool")) or is_call(recv, "multiprocessing.Pool")
+            r.rep.ob(rule + "-ORD", q, made_here, "the pool whose workers run the tasks is created inside this call, after the parameter block was written (forked workers inherit the block as it is then)",
+                     wh(r, q, e.node), expected="with Pool(n_cpu) as p: p.map(...)", found=show(recv, 60), key="pool created here")
         r.rep.ob(rule + "-ORD", q, meth in ("map", "imap", "starmap"), "results are assembled by an order-preserving primitive", wh(r, q, e.node), expected="map / Pool.map", found=meth, key=f"ordered {meth}")
         if is_mcall(c):
             cs = get_arg(c, 2, "chunksize")
@@ -1496,3 +1556,93 @@ def check_rank2(r, rule, q):
                  expected="len(list) > 0 on this path, or .reshape(-1, k)", found=f"{show(obj, 50)}[{show(idx, 30)}]" + (" reshaped" if reshaped else " unguarded" if not ok else " guarded"),
                  key=f"rank2 {show(obj, 40)}[{show(idx, 30)}]")
     return n
+
+
+
+# =========================================================================== candidate generation shared by the search properties
+def check_symdel_pairs(r, rule, cd_modes):
+    """symdel self mode: every unordered pair of positions sharing a deletion variant is examined - pairs are drawn by
+    itertools.combinations over the whole position list of the variant, both orientations are inserted under the same guards into a set."""
+    nn = get_nn(r)
+    rep = r.rep
+    q = MOD + "symdel"
+    for mode in [m for m in MODES if m[0] in cd_modes]:
+        sites = [x for x in engine_sites_safe(nn, mode) if x[0] == "symdel-self"]
+        mname = MODE_NAME[mode]
+        w = wh(r, q, sites[0][1].node) if sites else wh(r, q, nn.summary(q).func.node)
+        ok_pair = len(sites) == 2 and strip(sites[0][1].a) == strip(sites[1][1].b) and strip(sites[0][1].b) == strip(sites[1][1].a) and strip(sites[0][1].d) == strip(sites[1][1].d) \
+            and sites[0][1].guards == sites[1][1].guards
+        rep.ob(rule, q, ok_pair, f"both orientations (i, j, d) and (j, i, d) are inserted under the same guards with the same value [{mname}]", w,
+               expected="ans.add((i, j, dist)); ans.add((j, i, dist))", found=f"{len(sites)} insertion site(s)", key=f"orientations {mname}")
+        if not sites:
+            continue
+        st = sites[0][1]
+        a = strip(st.a)
+        it = strip(a[1])[-1] if head(a) == "item" and head(strip(a[1])) in ("iter", "citer") else None
+        ok_comb = it is not None and is_call(it, "itertools.combinations") and len(strip(it)[2]) == 2 and is_const(strip(it)[2][1], 2)
+        whole = False
+        if ok_comb:
+            v = strip(strip(it)[2][0])
+            # the position list must be the dictionary entry itself (values of variant_dict.items()), not a subset / regrouping of it
+            whole = head(v) == "item" and v[2] == 1 and head(strip(v[1])) in ("iter", "citer") and is_mcall(strip(strip(v[1])[-1]), "items") and nn.map_info(q, strip(strip(strip(v[1])[-1])[1])[1]) is not None
+            if not whole and head(v) == "sub":
+                whole = nn.map_info(q, v[1]) is not None
+        rep.ob(rule, q, ok_comb and whole, f"every unordered pair of distinct positions filed under a variant is examined once [{mname}]", w,
+               expected="for i, j in combinations(values, 2) with values = the variant's whole position list", found=show(it, 80) if it is not None else show(a, 60), key=f"pairs {mname}")
+        loops_ok = len([l for l in st.loops if l[0] is not None]) == 2
+        rep.ob(rule, q, loops_ok, f"pairs are enumerated by exactly two nested loops (variants x pairs) [{mname}]", w, expected="2 loops", found=f"{len(st.loops)} loops", key=f"pair loops {mname}")
+
+
+def engine_sites_safe(nn, mode):
+    try:
+        return engine_sites(nn, mode)
+    except AnalysisBroken:
+        # structural obligations only need the symdel sites
+        q = MOD + "symdel"
+        seqs = nn.root(role_term(nn, q, "SEQS"))[0]
+        return [("symdel-self", st, seqs, seqs, "struct", False) for st in symdel_self_sites(nn, mode)]
+
+
+def check_candidates(r, prop, engines=("symdel", "hash", "kdtree"), cds=("none", "hamming", "callable")):
+    """Hypotheses of the candidate lemmas (A.1, A.2, A.4) on which completeness of every search mode rests."""
+    if "symdel" in engines:
+        check_comb_gen(r, prop + "-CAND")
+        check_index_builder(r, prop + "-CAND")
+        check_symdel_pairs(r, prop + "-CAND", cds)
+    if "hash" in engines:
+        check_bfs(r, prop + "-CAND")
+    if "kdtree" in engines:
+        check_kd(r, prop + "-CAND", modes=cds)
+        check_encoder(r, prop + "-CAND")
+
+
+def check_engines_stateless(r, rule, entries=("kdtree", "hash_based", "symdel", "nearest_neighbor", "SymdelDB.lookup", "LookupDB.lookup", "SymdelDB.__init__", "LookupDB.__init__"), cds=None):
+    """No function that an entry point can reach *in the given modes* keeps module-level state, and none writes to its arguments.
+    The kd-tree worker that the other modes select is not part of the closure (it cannot run in these modes)."""
+    from ..eff import effects_for, check_pure_params
+    from ..rules import where_of
+    nn = get_nn(r)
+    E = effects_for(r)
+    roots = [MOD + e for e in entries if (MOD + e) in r.P.functions]
+    blocked = set()
+    if cds is not None:
+        workers = {MOD + "_cal_levenshtein", MOD + "_cal_custom_dist"}
+        used = {worker_for_mode(nn, m) for m in MODES if m[0] in cds}
+        blocked = workers - used
+    seen, todo = set(), list(roots)
+    while todo:
+        q = todo.pop()
+        if q in seen or q in blocked or q not in E.calls:
+            continue
+        seen.add(q)
+        for e, cands in E.calls[q]:
+            todo.extend(c for c, _ in cands if c)
+        todo.extend(E.refs.get(q, ()))
+    allowed = {(MOD + "_to_triplets", MOD + "_cal_params")}
+    bad = [(q, root, e, w) for q, root, e, w in E.global_writes(seen) if (q, root[1]) not in allowed]
+    if not bad:
+        r.rep.ob(rule, roots[0] if roots else MOD, True, f"no function reachable from the entry points keeps state between calls ({len(seen)} functions)", "", key="no hidden state")
+    for q, root, e, w in bad:
+        r.rep.ob(rule, q, False, "module-level state written during a call survives into later calls (results would depend on call history)", where_of(r.P, r.P.functions[q], e.node),
+                 expected="no store to module-level objects", found=f"{w}  [{root[1]}]", key=f"hidden state {root[1]}")
+    check_pure_params(r, rule, [q for q in roots if not q.endswith("__init__")])
